@@ -624,6 +624,9 @@ func (x *rawRun) mssLimit(optLen int) int {
 	if pm-optLen < lim {
 		lim = pm - optLen
 	}
+	if lim < 1 {
+		lim = 1 // options alone fill the announced MSS: one byte per segment is the least that makes progress
+	}
 	return lim
 }
 
